@@ -234,6 +234,9 @@ class CoercerMethod(DeserializationMethod):
     method: DeserializationMethod
 
     def deserialize(self, data: Any) -> Any:
+        if isinstance(data, Discriminated):  # the data of a discriminated alternative
+            coerced = self.coercer(self.cls, data.data)
+            return self.method.deserialize(Discriminated(data.discriminator, coerced))
         return self.method.deserialize(self.coercer(self.cls, data))
 
 
